@@ -8,6 +8,7 @@ mod e_automata;
 mod e_charset;
 mod e_literal;
 mod e_looprange;
+mod e_merge;
 mod e_partition;
 mod e_regex;
 mod e_strconv;
@@ -31,6 +32,7 @@ fn main() {
         let r = catch_unwind(AssertUnwindSafe(|| match engine {
             "charset" => e_charset::run(&toks),
             "regex" => e_regex::run(&toks),
+            "merge" => e_merge::run(&toks),
             "literal" => e_literal::run(&toks),
             "partition" => e_partition::run(&toks),
             "automata" => e_automata::run(&toks),
